@@ -197,7 +197,10 @@ def _op_of_kind(kind, r, g, pref, fns):
         return [{"op": "decorate", "fn": fid}, call(fid)]
     if name == "decorate-gen-old":
         fid = fn("old", "gen", tc=r.choice(("tg", "min")), lazy=True, ret_iter=True)
-        return [{"op": "decorate", "fn": fid}]
+        ops = [{"op": "decorate", "fn": fid}]
+        if r.random() < 0.5:  # ... and its annotation objects are then pickled (e.g. sent to a worker process)
+            ops.append({"op": "pickle", "ann": g.anns[fns[fid]["ret"]]["item"], "how": r.choice(("pickle", "deepcopy"))})
+        return ops
     if name == "decorate-gen-new":
         fid = fn("new", "gen", lazy=True, ret_iter=True)
         return [{"op": "decorate", "fn": fid}, dict(call(fid, store="g0"), body=[{"op": "obs"}, {"op": "yield"}]),
@@ -227,6 +230,14 @@ def gen_insertion(seed):
     pool_arr = [g.arr_ann(atype=r.choice(("np", "duck")), min_tokens=1) for _ in range(r.randrange(2, 4))]
     pool_tree = [g.add_ann({"k": "tree", "leaf": r.choice(["int"] + pool_arr), "struct": r.choice(("T", "T", "S", None))})
                  for _ in range(r.randrange(1, 3))]
+    union_leaf = None
+    if r.random() < 0.5:
+        # a Union of two array annotations that can BOTH match a leaf (which member binds is history-free in a correct
+        # implementation: members are tried in declaration order every time)
+        u1 = g.add_ann({"k": "arr", "dtype": "Float", "atype": "np", "dims": "a", "toks": [{"kind": "named", "name": "a"}]})
+        u2 = g.add_ann({"k": "arr", "dtype": "Float", "atype": "np", "dims": "b", "toks": [{"kind": "named", "name": "b"}]})
+        union_leaf = g.add_ann({"k": "union", "items": [u1, u2]})
+        pool_tree.append(g.add_ann({"k": "tree", "leaf": union_leaf, "struct": None}))
 
     def check():
         if r.random() < 0.55:
@@ -240,6 +251,8 @@ def gen_insertion(seed):
         def lv(i):
             if leaf == "int":
                 return {"t": "int", "v": i}
+            if g.anns[leaf]["k"] == "union":
+                return {"t": "np", "s": [r.choice((pref["a"], pref["b"], 4))], "d": "float32"}
             return g.arr_val(leaf, pref, p_bad=0.1, vt="np" if g.anns[leaf]["atype"] == "np" else "duck")
 
         return {"op": "tree", "ann": ta, "val": g.fill_tree(skel, lv)}
@@ -274,7 +287,9 @@ def gen_insertion(seed):
                 args = []
                 for _, aref in params:
                     sp = g.anns[aref]
-                    if sp["k"] == "tree":
+                    if sp["k"] == "tree" and g.anns.get(sp["leaf"], {}).get("k") == "union":
+                        args.append({"t": "tuple", "c": [{"t": "np", "s": [pref["b"]], "d": "float32"}]})
+                    elif sp["k"] == "tree":
                         args.append({"t": "tuple", "c": [{"t": "int", "v": 1}]} if sp["leaf"] == "int" else
                                     {"t": "tuple", "c": [g.arr_val(sp["leaf"], pref, p_bad=0.2, vt="np" if g.anns[sp["leaf"]]["atype"] == "np" else "duck")]})
                     else:
@@ -365,6 +380,16 @@ def battery(d, scn):
                 res[f"P9:{aid}:skip"] = bool(type.__getattribute__(ann, "_skip_instancecheck"))
             except AttributeError:
                 pass
+            # a separately built annotation with the same spelling, sent through pickle, still rejects a non-array
+            try:
+                import pickle
+
+                cat = ctxsim.struct_category(spec["dtype"]) if spec["dtype"].startswith("Struct") else getattr(jaxtyping, spec["dtype"])
+                base = W.ann(spec["atype"][1:]) if spec["atype"].startswith("@") else ctxsim.ATYPES[spec["atype"]]
+                fresh = pickle.loads(pickle.dumps(cat[base, spec["dims"]]))
+                res[f"P11:{aid}:fresh-pickled-rejects"] = _oc(lambda: isinstance("notanarray", fresh))
+            except Exception as e:
+                res[f"P11:{aid}:fresh-pickled-rejects"] = "!" + type(e).__name__
         # a freshly decorated function sees its own argument
 
         def fresh():
@@ -415,6 +440,9 @@ def _variant(scn, plan):
     d = ctxsim.Direct(scn)
     try:
         clean = battery(d, scn)
+        from ..core import gc_point
+
+        gc_point()  # temporaries of the clean battery (fresh annotation classes) must be gone before the history starts
         d.reset_faults(plan)
         outs = []
         for i, op in enumerate(scn["history"]):
@@ -550,7 +578,11 @@ def _execute(scn):
     else:
         plans = [scn["faults"]]
     sample_counts = None
-    for fl in plans:
+    for vi, fl in enumerate(plans):
+        if vi % 25 == 0:
+            from ..core import gc_point
+
+            gc_point()
         plan = {(f["site"], f["k"]): f["exc"] for f in fl}
         clean, after, outs, fired, counts = _variant(scn, plan)
         if sample_counts is None:
